@@ -69,6 +69,7 @@ func encoderWrites(f *eng.Fn) []ast.Node {
 func runC10(p *eng.Prog, r *eng.Report, tier string) {
 	c := &cx{p, r, tier}
 	closedErrorNotClassified(c, "C10.18")
+	c10WhoClosesTheStreams(c, "C10.21")
 	// C10.19 (= C04.13 / C02.14): the connection adapters perform one operation of the
 	// wrapped connection per call and hand its results on: the closing tag is written once
 	c04AdaptersReportEveryFault(c, "C10.19")
@@ -993,4 +994,35 @@ func replyFlagOnlyByDetector(c *cx, id string) {
 		}
 	}
 	c.r.Floor(id, "writes of the reply flag", n, 1)
+}
+
+// c10WhoClosesTheStreams (C10.21): "output closed" means "the closing tag has
+// been written (or its write was attempted)": the OutputStreamClosed bit is
+// set by closeSession only, the InputStreamClosed bit by closeInputStream only.
+// A second writer of the bit (an error path that "accepts no further output"
+// after a half-written element) makes closeSession return early: the closing
+// tag is written zero times.
+func c10WhoClosesTheStreams(c *cx, id string) {
+	owner := map[int64]string{16: "xmpp.(*Session).closeSession", 32: "xmpp.(*Session).closeInputStream"}
+	name := map[int64]string{16: "OutputStreamClosed", 32: "InputStreamClosed"}
+	n := 0
+	for _, f := range c.allFns() {
+		for _, w := range f.FieldWrites("xmpp.Session.state") {
+			if w.RHS == nil {
+				continue
+			}
+			v, ok := f.ConstInt(w.RHS)
+			if !ok {
+				continue
+			}
+			for bit, fn := range owner {
+				if v&bit == 0 {
+					continue
+				}
+				n++
+				c.r.Check(id, f, "store of the "+name[bit]+" bit", "W: the bit is set by "+fn+" only", w.Stmt.Pos(), f.Short == fn, "set in "+f.Short+": the function that owns the bit takes the stream for closed and does not do its part (the closing tag is never written)")
+			}
+		}
+	}
+	c.r.Floor(id, "stores of the closed bits", n, 2)
 }
